@@ -1,6 +1,7 @@
 PROP_MODULES = {
     "C01": ["contracts.c01_ring"],
     "C02": ["contracts.c02_select"],
+    "C03": ["contracts.c03_neurons"],
     "C07": ["contracts.c07_traces"],
     "C20": ["contracts.c20_numeric"],
 }
